@@ -538,6 +538,8 @@ func checkC18(w *World, r *Report) {
 		}
 	}
 
+	r.Rule("R18.10", "a server's Startup, which consumes the +tls marker of its configured address in place, runs at most once per server object (no retry loop on the same object)", 1)
+	c18StartupRunsOncePerServer(w, r)
 	r.Rule("R18.9", "however the DNS server is started, a +tls endpoint gets a TLS listener (ListenAndServe builds it; ActivateAndServe needs one from crypto/tls)", 1)
 	c18DnsServerStartKeepsTls(w, r)
 	r.Rule("R18.8", "no parsing function returns a nil object together with a possibly-nil error (a malformed definition must be a configuration error, not a nil entry)", 3)
